@@ -2,14 +2,18 @@
 Theorems: coq/theories/Props/C16.v over the machines of Runtime/Context.v.
 Correspondence: harness h_ctx drives the real leptos runtime (live effects) through generated operation histories over a
 tree of contexts and prints every observation after every step; the Coq spec predicate is evaluated on those traces and the
-traces are compared with the model's. Failing histories are shrunk to a minimal operation sequence."""
+traces are compared with the model's. Failing histories are shrunk to a minimal operation sequence.
+Accessors are created through the real macros in every flavour (Runtime/ContextAcc.v): t!/tu!/t_string!/tu_string!/t_display!/
+tu_display!/td!/td_string!/td_display! x ten kinds of first-argument expression x with/without interpolation arguments, each
+created before later sets and rendered after every step, and mounted in render effects."""
 import json
 import os
 
 from vlib import core
 from checks import C15
 
-THEOREMS = ["C16_refines", "C16_views_agree", "C16_last_set", "C16_isolation", "C16_isolation_unwired", "C16_spec"]
+THEOREMS = ["C16_refines", "C16_views_agree", "C16_last_set", "C16_isolation", "C16_isolation_unwired", "C16_spec",
+            "C16_accessor_refines", "C16_accessor_reads_current", "C16_mounted_current", "C16_frozen_observer", "C16_accessor_spec"]
 PROPS = "theories/Props/C16.v"
 REGISTRY = {
     "level": "proof",
@@ -21,7 +25,11 @@ REGISTRY = {
             "exactly the observations of the abstract map context->locale; corollaries: every handle/scoped view/accessor shows the "
             "last locale set (C16_last_set), operations on one context never change another unless an initial-locale signal was "
             "wired and written (C16_isolation). The model is tied to /repo by running the real runtime on generated histories "
-            "(<=4 contexts, <=40 ops, flushes interleaved) and comparing every step.",
+            "(<=4 contexts, <=40 ops, flushes interleaved) and comparing every step. C16_accessor_reads_current / "
+            "C16_mounted_current / C16_frozen_observer (Runtime/ContextAcc.v): an accessor of any flavour (9 macros x 10 kinds of "
+            "context expression x with/without arguments) created at any point renders the current locale of its context after "
+            "any continuation; effects over tracked flavours show it after a flush; the harness creates every accessor through "
+            "the real macro with that flavour.",
     "design_ref": "DESIGN.md §5 C16",
     "note": "Trusted: Coq kernel + vm_compute; hand-written model Runtime/Context.v; leptos' scheduler is observed (effects run at "
             "executor ticks), not modelled; harness build = ssr + reactive_graph/effects. No axioms.",
@@ -30,11 +38,59 @@ REGISTRY = {
 }
 PRE = ("From Coq Require Import List NArith Bool.\nImport ListNotations.\n"
        "From LI Require Import Base.StrOps.\nFrom LI Require Import Runtime.Langid.\nFrom LI Require Import Runtime.Resolve.\n"
-       "From LI Require Import Runtime.Context.\nFrom LI Require Import Runtime.ContextCheck.\nOpen Scope N_scope.\n")
+       "From LI Require Import Runtime.Context.\nFrom LI Require Import Runtime.ContextCheck.\n"
+       "From LI Require Import Runtime.ContextAcc.\nFrom LI Require Import Runtime.ContextAccCheck.\nOpen Scope N_scope.\n")
 
 NLOC = 5
 SUB_COOKIES = ["sub_a", "sub_b"]
 MAX_CTX, MAX_OPS, MAX_HANDLES, MAX_DEPTH = 4, 40, 9, 2
+MAX_ACC, MAX_WATCH, MAX_FROZEN = 5, 4, 4
+
+# ------------------------------------------------------------------ accessor flavours (mirror of Runtime/ContextAcc.v)
+MACROS = ["MT", "MTu", "MTString", "MTuString", "MTDisplay", "MTuDisplay", "MTd", "MTdString", "MTdDisplay"]
+MACRO_NAMES = ["t!", "tu!", "t_string!", "tu_string!", "t_display!", "tu_display!", "td!", "td_string!", "td_display!"]
+EXPRS = ["EIdent", "EUseCall", "EScopeInline", "EUseScopedInline", "EField", "EDeref", "EBlock", "EParen", "EMethod", "EFnCall"]
+CTX_EXPR = ["c", "use_i18n()", "scope_i18n!(c, ns)", "use_i18n_scoped!(ns)", "holder.i18n", "*r", "{ c }", "(c)", "holder.get()", "idf(c)"]
+LOC_EXPR = ["l (Locale bound at creation)", "use_i18n().get_locale()", "scope_locale!(c.get_locale(), ns)",
+            "use_i18n().get_locale_untracked()", "holder.i18n.get_locale()", "(*r).get_locale()", "{ c.get_locale() }",
+            "(c.get_locale())", "c.get_locale()", "idf(c.get_locale_untracked())"]
+
+
+def fl(m, e, i):
+    return m * 32 + e * 2 + i
+
+
+def fl_parts(f):
+    return f // 32, (f % 32) // 2, f % 2
+
+
+def fl_frozen(f):
+    m, e, _ = fl_parts(f)
+    return m >= 6 and e == 0
+
+
+def fl_tracked(f):
+    m, e, _ = fl_parts(f)
+    if m < 6:
+        return m % 2 == 0
+    return e not in (0, 3, 9)
+
+
+def fl_name(f):
+    m, e, i = fl_parts(f)
+    return "%s(%s, key%s)" % (MACRO_NAMES[m], (LOC_EXPR if m >= 6 else CTX_EXPR)[e], ", n = .." if i else "")
+
+
+def fl_coq(f):
+    return "F%d_" % f
+
+
+ALL_FL = [fl(m, e, i) for m in range(9) for e in range(10) for i in range(2)]
+FROZEN_FL = [f for f in ALL_FL if fl_frozen(f)]
+LIVE_FL = [f for f in ALL_FL if not fl_frozen(f)]
+FL_DEFS = "".join("Definition %s := mk_fl %s %s %s.\n" % (fl_coq(f), MACROS[fl_parts(f)[0]], EXPRS[fl_parts(f)[1]],
+                                                          "true" if fl_parts(f)[2] else "false") for f in ALL_FL)
+FL_T, FL_TSTRING = fl(0, 0, 0), fl(2, 0, 0)
 
 
 # ------------------------------------------------------------------ histories
@@ -43,7 +99,7 @@ class Shape:
     """structural simulation of a history (no locale values): what indices exist"""
 
     def __init__(self):
-        self.nctx, self.handles, self.nsig, self.nacc, self.nw = 1, [(0, 0)], 0, 0, 0
+        self.nctx, self.handles, self.nsig, self.nacc, self.nw, self.nz = 1, [(0, 0)], 0, 0, 0, 0
 
     def ok(self, op):
         k = op[0]
@@ -51,8 +107,10 @@ class Shape:
             return op[1] < self.nctx and (op[2] is None or op[2] < self.nsig) and self.nctx < MAX_CTX
         if k == "W":
             return op[1] < self.nsig
-        if k in ("S", "U", "A", "M"):
+        if k in ("S", "U", "M"):
             return op[1] < len(self.handles)
+        if k == "A":
+            return op[1] < len(self.handles) and fl_frozen(op[2]) == fl_frozen(op[3])
         if k == "C":
             return op[1] < len(self.handles) and self.handles[op[1]][1] < MAX_DEPTH
         return True
@@ -68,9 +126,15 @@ class Shape:
             c, d = self.handles[op[1]]
             self.handles.append((c, d + 1))
         elif k == "A":
-            self.nacc += 1
+            if fl_frozen(op[2]):
+                self.nz += 1
+            else:
+                self.nacc += 1
         elif k == "M":
-            self.nw += 1
+            if fl_tracked(op[2]):
+                self.nw += 1
+            else:
+                self.nz += 1
 
 
 def valid(ops):
@@ -107,7 +171,7 @@ def remove_renumbered(ops, i):
             elif o[0] in ("S", "U"):
                 out.append((o[0], fix(o[1], hidx), o[2]))
             elif o[0] in ("C", "A", "M"):
-                out.append((o[0], fix(o[1], hidx)))
+                out.append((o[0], fix(o[1], hidx)) + tuple(o[2:]))
             elif o[0] == "W":
                 out.append(("W", fix(o[1], sidx), o[2]))
             else:
@@ -148,13 +212,15 @@ def gen_history(rng):
                 continue
             op = ("C", rng.randrange(len(sh.handles)))
         elif r < 0.88:
-            if sh.nacc >= 5:
+            pool = FROZEN_FL if rng.random() < 0.12 else LIVE_FL
+            if (sh.nz if pool is FROZEN_FL else sh.nacc) >= (MAX_FROZEN if pool is FROZEN_FL else MAX_ACC):
                 continue
-            op = ("A", rng.randrange(len(sh.handles)))
+            op = ("A", rng.randrange(len(sh.handles)), rng.choice(pool), rng.choice(pool))
         elif r < 0.95:
-            if sh.nw >= 4:
+            f = rng.choice(ALL_FL)
+            if (sh.nw if fl_tracked(f) else sh.nz) >= (MAX_WATCH if fl_tracked(f) else MAX_FROZEN):
                 continue
-            op = ("M", rng.randrange(len(sh.handles)))
+            op = ("M", rng.randrange(len(sh.handles)), f)
         else:
             op = ("G",)
         if sh.ok(op):
@@ -176,10 +242,41 @@ def gen_root(rng):
     return {"enable": enable, "cookie": cookie, "accept": accept}
 
 
+def flavour_corpus():
+    """every flavour, on every scope depth, created BEFORE tracked and untracked sets (through the same handle and through
+    another view of the context) and rendered after each step; every flavour mounted in an effect on some depth; alternately on
+    the root context and on a sub-context"""
+    out = []
+    order = FROZEN_FL + LIVE_FL
+    chunks = [order[i:i + 8] for i in range(0, len(order), 8)]
+    while len(chunks[-1]) < 8:
+        chunks[-1].append(LIVE_FL[len(chunks[-1])])
+    mounted = {0: (0, 2, 4, 6), 1: (1, 3, 5, 7), 2: (0, 3, 4, 7)}
+    for ci, ch in enumerate(chunks):
+        for depth in range(3):
+            ops, base = [], 0
+            if (ci + depth) % 2:
+                ops.append(("N", 0, None, None))
+                base = 1
+            for d in range(depth):
+                ops.append(("C", base + d))
+            t = base + depth
+            for j in range(0, 8, 2):
+                ops.append(("A", t, ch[j], ch[j + 1]))
+            for j in mounted[depth]:
+                ops.append(("M", t, ch[j]))
+            ops += [("S", base, 3), ("F",), ("U", t, 2), ("G",), ("F",), ("S", t, 1), ("F",)]
+            if base:
+                ops += [("S", 0, 4), ("F",)]
+            out.append(({"enable": False, "cookie": None, "accept": None}, ops))
+    return out
+
+
 CORPUS = [
     # scoped views and accessors created before/after sets, tracked and untracked
     ({"enable": True, "cookie": "i18n_pref_locale=fr", "accept": "de"},
-     [("A", 0), ("C", 0), ("S", 0, 3), ("A", 1), ("F",), ("U", 1, 2), ("M", 0), ("F",), ("S", 1, 4), ("F",)]),
+     [("A", 0, FL_T, FL_TSTRING), ("C", 0), ("S", 0, 3), ("A", 1, FL_T, FL_TSTRING), ("F",), ("U", 1, 2), ("M", 0, FL_TSTRING), ("F",),
+      ("S", 1, 4), ("F",)]),
     # isolation parent/child, then a wired sub-context: write, set, flush orders
     ({"enable": False, "cookie": None, "accept": "fr"},
      [("N", 0, None, None), ("S", 1, 3), ("F",), ("S", 0, 4), ("F",), ("I", 2), ("N", 0, 0, None), ("F",), ("S", 2, 0), ("F",),
@@ -198,7 +295,11 @@ def op_word(op):
         return "N%d,%s,%s" % (op[1], "-" if op[2] is None else op[2], C15.enc(op[3]))
     if k in ("S", "U", "W"):
         return "%s%d,%d" % (k, op[1], op[2])
-    if k in ("C", "A", "M", "I"):
+    if k == "A":
+        return "%s%d,%d,%d" % ("Z" if fl_frozen(op[2]) else "A", op[1], op[2], op[3])
+    if k == "M":
+        return "%s%d,%d" % ("M" if fl_tracked(op[2]) else "Y", op[1], op[2])
+    if k in ("C", "I"):
         return "%s%d" % (k, op[1])
     return k
 
@@ -211,16 +312,20 @@ def line_of(root, ops):
 def coq_op(op, tb):
     k = op[0]
     if k == "N":
-        return "(RNewSub %d%%nat %s %s)" % (op[1], "None" if op[2] is None else "(Some %d%%nat)" % op[2], "None" if op[3] is None else "(Some %s)" % tb.s(op[3]))
+        return "(XRaw (RNewSub %d%%nat %s %s))" % (op[1], "None" if op[2] is None else "(Some %d%%nat)" % op[2], "None" if op[3] is None else "(Some %s)" % tb.s(op[3]))
     if k == "I":
         t = "ONewSig %d" % op[1]
     elif k in ("W", "S", "U"):
         t = "%s %d%%nat %d" % ({"W": "OWrite", "S": "OSet", "U": "OSetU"}[k], op[1], op[2])
-    elif k in ("C", "A", "M"):
-        t = "%s %d%%nat" % ({"C": "OScope", "A": "OAcc", "M": "OMount"}[k], op[1])
+    elif k == "A":
+        return "(XRAcc %d%%nat %s %s)" % (op[1], fl_coq(op[2]), fl_coq(op[3]))
+    elif k == "M":
+        return "(XRMount %d%%nat %s)" % (op[1], fl_coq(op[2]))
+    elif k == "C":
+        t = "OScope %d%%nat" % op[1]
     else:
         t = "OGet" if k == "G" else "OFlush"
-    return "(ROp (%s))" % t
+    return "(XRaw (ROp (%s)))" % t
 
 
 LAST = {}
@@ -231,30 +336,32 @@ class BadTrace(Exception):
 
 
 def parse_trace(line, names):
-    """-> (trace_a, trace_b): lists of snapshots (handles, accs, watch, cookies)"""
+    """-> (trace_a, trace_b): lists of snapshots (handles, accs, watch, cookies, frozen observers)"""
     if "PANIC" in line or "UNSTABLE" in line or line.startswith("BAD"):
         raise BadTrace(line[:300])
     ta, tb_ = [], []
     for snap in line.split(";"):
-        h, a, w, c = snap.split("/")
+        h, a, w, c, z = snap.split("/")
         hs = [x for x in h[1:].split(".") if x]
         ac = [x for x in a[1:].split(".") if x]
+        zs = [x for x in z[1:].split(".") if x]
         ws = [x for x in w[1:].split(".") if x]
         cs = c[1:].split(".")
-        if any(len(x) != 2 or not x.isdigit() for x in hs + ac) or any(len(x) != 1 or not x.isdigit() for x in ws):
+        if any(len(x) != 2 or not x.isdigit() for x in hs + ac + zs) or any(len(x) != 1 or not x.isdigit() for x in ws):
             raise BadTrace("unreadable rendering in " + snap)
         cook = []
         for log in cs:
             last = log.split("+")[-1] if log else ""
             cook.append(None if last == "" else (names.index(last) if last in names else 99))
-        ta.append(([int(x[0]) for x in hs], [int(x[0]) for x in ac], [int(x) for x in ws], cook))
-        tb_.append(([int(x[1]) for x in hs], [int(x[1]) for x in ac], [int(x) for x in ws], cook))
+        ta.append(([int(x[0]) for x in hs], [int(x[0]) for x in ac], [int(x) for x in ws], cook, [int(x[0]) for x in zs]))
+        tb_.append(([int(x[1]) for x in hs], [int(x[1]) for x in ac], [int(x) for x in ws], cook, [int(x[1]) for x in zs]))
     return ta, tb_
 
 
 def coq_obs(o):
-    return "(mk_obs %s %s %s %s)" % (core.coq_list(map(str, o[0])), core.coq_list(map(str, o[1])), core.coq_list(map(str, o[2])),
-                                     core.coq_list(["None" if x is None else "(Some %d)" % x for x in o[3]]))
+    return "(mk_obs %s %s %s %s, %s)" % (core.coq_list(map(str, o[0])), core.coq_list(map(str, o[1])), core.coq_list(map(str, o[2])),
+                                         core.coq_list(["None" if x is None else "(Some %d)" % x for x in o[3]]),
+                                         core.coq_list(map(str, o[4])))
 
 
 def evaluate(ctx, exe, hist, tag="c16"):
@@ -267,7 +374,8 @@ def evaluate(ctx, exe, hist, tag="c16"):
     _, o15 = C15.run_harness(exe, [C15.line_of({"kind": "main", "enable": r["enable"], "name": None, "cookie": r["cookie"],
                                                  "accept": r["accept"]}) for r, _ in hist])
     for i, ((root, ops), line, l15) in enumerate(zip(hist, outs, o15)):
-        m = {"root": root, "ops": [list(o) for o in ops], "harness_line": line_of(root, ops), "impl_trace": line}
+        m = {"root": root, "ops": [list(o) for o in ops], "harness_line": line_of(root, ops), "impl_trace": line,
+             "flavours": {"op%d" % j: [fl_name(f) for f in o[2:]] for j, o in enumerate(ops) if o[0] in ("A", "M")}}
         metas.append(m)
         try:
             ta, tb_ = parse_trace(line, names)
@@ -277,14 +385,14 @@ def evaluate(ctx, exe, hist, tag="c16"):
             continue
         o = C15.parse_out(l15)
         main = "(mk_main_opts %s COOKIE_PREFERED_LANG %s %s)" % ("true" if root["enable"] else "false", tb.jar(o["jar"]), tb.acc(o["accept"]))
-        items.append("(mk_case APP_ %s %s %s %s)" % (main, core.coq_list([coq_op(x, tb) for x in ops]),
+        items.append("(mk_xcase APP_ %s %s %s %s)" % (main, core.coq_list([coq_op(x, tb) for x in ops]),
                                                      core.coq_list(map(coq_obs, ta)), core.coq_list(map(coq_obs, tb_))))
         idx.append(i)
-    res = core.coq_eval(ctx, tag, PRE + "\n".join(tb.defs) + "\n",
-                        items, "check", min_per_shard=8)
+    res = core.coq_eval(ctx, tag, PRE + FL_DEFS + "\n".join(tb.defs) + "\n",
+                        items, "xcheck", min_per_shard=8)
     for i, c in zip(idx, res):
         codes[i] = c
-    LAST["preamble"], LAST["items"] = PRE + "\n".join(tb.defs) + "\n", items
+    LAST["preamble"], LAST["items"] = PRE + FL_DEFS + "\n".join(tb.defs) + "\n", items
     return codes, metas, names
 
 
@@ -311,6 +419,16 @@ def shrink_ops(ctx, exe, root, ops, bad_codes):
                     cands.append(cur[:i] + [("N", o[1], o[2], None)] + cur[i + 1:])
                 if o[0] == "N" and o[2] is not None:
                     cands.append(cur[:i] + [("N", o[1], None, o[3])] + cur[i + 1:])
+                # simpler accessors: both of one flavour, no interpolation arguments
+                if o[0] == "A":
+                    canon = lambda f: 192 + f % 32 if fl_frozen(f) else f % 32    # the same first argument given to td! / t!
+                    for fa, fb in ((o[2], o[2]), (o[3], o[3]), (o[2] & ~1, o[3]), (o[2], o[3] & ~1), (canon(o[2]), canon(o[3]))):
+                        if (fa, fb) != (o[2], o[3]):
+                            cands.append(cur[:i] + [("A", o[1], fa, fb)] + cur[i + 1:])
+                if o[0] == "M" and o[2] & 1:
+                    cands.append(cur[:i] + [("M", o[1], o[2] & ~1)] + cur[i + 1:])
+                if o[0] == "M" and o[2] >= 32 and fl_tracked(o[2] % 32) == fl_tracked(o[2]):
+                    cands.append(cur[:i] + [("M", o[1], o[2] % 32)] + cur[i + 1:])
         if not cands:
             chunk //= 2
             continue
@@ -352,7 +470,7 @@ def run(ctx):
     bindir = core.cargo_build("h_ctx")
     ok, problems = core.coq_audit(ctx, PROPS, THEOREMS)
     exe = C15.exe_path(bindir)
-    hist = list(CORPUS)
+    hist = list(CORPUS) + flavour_corpus()
     n = 400 if ctx.quick else 8000
     for _ in range(n):
         hist.append((gen_root(ctx.rng), gen_history(ctx.rng)))
@@ -365,8 +483,9 @@ def run(ctx):
         root, ops = shrink(ctx, exe, hist[i][0], hist[i][1], (3,))
         c2, m2, _ = evaluate(ctx, exe, [(root, ops)], tag="c16s")
         m2[0]["explanation"] = ("spec_C16 (Coq, Runtime/Context.v) is false on the implementation's trace: some handle / scoped view / "
-                                "accessor / mounted effect does not show the locale last set on its context, or a context moved "
-                                "without being set (and without a wired initial-locale signal being written)")
+                                "accessor (created through the macro and context expression listed under 'flavours') / mounted effect "
+                                "does not show the locale last set on its context, or a context moved without being set (and "
+                                "without a wired initial-locale signal being written)")
         m2[0]["original_length"] = len(hist[i][1])
         core.violation(ctx, "spec", {"failing_input": m2[0], "count": len(bad)})
     elif broken:
@@ -381,32 +500,79 @@ def run(ctx):
             first["code"] = c2[0]
         core.violation(ctx, "correspondence", {
             "broken": ("theorem/audit: " + "; ".join(problems)) if not ok else
-                      "correspondence Runtime/Context.v (model_trace) vs the real leptos runtime driven through leptos_i18n contexts",
+                      "correspondence Runtime/ContextAcc.v (xmodel_trace) vs the real leptos runtime driven through leptos_i18n "
+                      "contexts and accessor macros",
             "first_disagreeing_input": first, "disagreements": len(dis)}, no_input=True)
     hist_len, kinds, nontrivial = {}, {}, set()
+    # per flavour: accessors created, of which rendered after a later set / untracked set on their own context, effects mounted
+    fstat = {f: {"created": 0, "before_set": 0, "before_set_untracked": 0, "mounted": 0, "mounted_before_set": 0} for f in ALL_FL}
+    by_depth = {0: 0, 1: 0, 2: 0}
     for (root, ops), c in zip(hist, codes):
         key = "ops<=%d" % (10 * ((len(ops) + 9) // 10))
         hist_len[key] = hist_len.get(key, 0) + 1
+        sh, hctx = Shape(), []
         for o in ops:
+            hctx.append(sh.handles[o[1]][0] if o[0] in ("A", "M", "S", "U") else None)
+            if o[0] in ("A", "M"):
+                by_depth[sh.handles[o[1]][1]] += 1
+            sh.apply(o)
+        for j, o in enumerate(ops):
             kinds[o[0]] = kinds.get(o[0], 0) + 1
+            if o[0] in ("A", "M"):
+                later_s = any(p[0] == "S" and hctx[j2] == hctx[j] for j2, p in enumerate(ops) if j2 > j)
+                later_u = any(p[0] == "U" and hctx[j2] == hctx[j] for j2, p in enumerate(ops) if j2 > j)
+                for f in o[2:]:
+                    st = fstat[f]
+                    if o[0] == "A":
+                        st["created"] += 1
+                        st["before_set"] += later_s
+                        st["before_set_untracked"] += later_u
+                    else:
+                        st["mounted"] += 1
+                        st["mounted_before_set"] += later_s
         if any(o[0] in ("S", "U") for o in ops) and any(o[0] == "N" for o in ops):
             nontrivial.add(line_of(root, ops))
     core.write_evidence(ctx, {
         "evaluations": len(hist), "distinct_nontrivial": len(nontrivial),
         "steps_compared": sum(len(o) + 1 for _, o in hist),
-        "rule": "corpus histories first, then random histories: <=4 contexts (root + sub-contexts below any context, with/without a "
+        "rule": "corpus histories first (3 hand-written, then a systematic family: every accessor flavour = 9 macros x 10 kinds of "
+                "first-argument expression x with/without interpolation arguments, on every scope depth, created before a set, an "
+                "untracked set and a set through another view, half of them mounted in an effect, alternately on the root and on a "
+                "sub-context), then random histories with random flavours: <=4 contexts (root + sub-contexts below any context, with/without a "
                 "wired caller signal, with/without a cookie name), <=40 ops among set/set_untracked/scope/accessor/mount/new signal/"
                 "signal write/flush/observe, flushes interleaved at random; random root options (cookies on/off, Cookie and "
                 "Accept-Language headers); non-trivial = at least one set and one sub-context; distinct by scenario line",
         "samples": metas[:2] + metas[len(metas) // 2:len(metas) // 2 + 1],
         "traces_validated_against_impl": len(hist) - len(broken),
         "disagreements": len(dis), "spec_failures_on_impl": len(bad), "harness_panics_or_unstable": len(broken),
-        "input_distribution": {"history_length": hist_len, "operation_kinds": kinds}, "audit_problems": problems,
+        "input_distribution": {
+            "history_length": hist_len, "operation_kinds": kinds,
+            "accessor_flavours": {
+                "flavours_total": len(ALL_FL),
+                "flavours_created_and_rendered_after_a_later_set": sum(1 for f in ALL_FL if fstat[f]["before_set"]),
+                "flavours_created_and_rendered_after_a_later_untracked_set": sum(1 for f in ALL_FL if fstat[f]["before_set_untracked"]),
+                "flavours_mounted_before_a_later_set": sum(1 for f in ALL_FL if fstat[f]["mounted_before_set"]),
+                "accessors_and_effects_by_scope_depth": by_depth,
+                "by_macro": {MACRO_NAMES[m]: {k: sum(fstat[f][k] for f in ALL_FL if fl_parts(f)[0] == m)
+                                             for k in ("created", "before_set", "before_set_untracked", "mounted", "mounted_before_set")}
+                             for m in range(9)},
+                "by_first_argument_kind": {"%s | %s" % (CTX_EXPR[e], LOC_EXPR[e]):
+                                           {k: sum(fstat[f][k] for f in ALL_FL if fl_parts(f)[1] == e)
+                                            for k in ("created", "before_set", "before_set_untracked", "mounted", "mounted_before_set")}
+                                           for e in range(10)},
+                "with_arguments": {str(bool(i)): sum(fstat[f]["created"] + fstat[f]["mounted"] for f in ALL_FL if fl_parts(f)[2] == i)
+                                   for i in range(2)},
+                "least_exercised_flavour": min(({"flavour": fl_name(f), **fstat[f]} for f in ALL_FL),
+                                               key=lambda d: (d["before_set"], d["created"])),
+            }}, "audit_problems": problems,
     }, assumptions=[
         "leptos' scheduler is observed, not modelled: a flush is 12 executor ticks and is checked to be quiescent (a second flush "
         "changes nothing); effects only run at those points in a single-threaded native run",
         "harness build = ssr feature + reactive_graph/effects: not a production configuration",
         "'observe' is read as 'when evaluated after the call'; a mounted effect is not re-run by set_locale_untracked (DESIGN §5 C16)",
+        "frozen observers (td! over a Locale value bound at creation, effects over untracked accessors) are compared with the model "
+        "only; the property demands nothing of them",
+        "use_i18n() is evaluated under the owner of the context the accessor belongs to (creation and every rendering)",
         "the root context's Cookie/Accept-Language oracles are read back as in C15"])
 
 
@@ -423,16 +589,23 @@ def replay(ctx, path):
     codes, metas, names = evaluate(ctx, C15.exe_path(bindir), [(fi["root"], ops)], tag="c16r")
     print("root:", json.dumps(fi["root"]))
     print("ops:", " ".join(op_word(o) for o in ops))
+    for j, o in enumerate(ops):
+        if o[0] in ("A", "M"):
+            print("  op %d %s on handle %d: %s" % (j, "accessors" if o[0] == "A" else "mounted effect over", o[1],
+                                                 " ; ".join(fl_name(f) for f in o[2:])))
     print("implementation trace:", metas[0]["impl_trace"])
     if LAST.get("items"):
         c = LAST["items"][0]
-        print("model trace (handles, accessors, mounted, cookies per step):", core.coq_show(
+        print("model trace (handles, accessors, mounted, cookies, frozen observers per step):", core.coq_show(
             ctx, LAST["preamble"],
-            "let c := %s in map (fun o => (o_handles o, o_accs o, o_watch o, o_cookies o)) (model_trace (init_main true (c_app c) (c_main c)) "
-            "(mo_enable_cookie (c_main c)) (map (cook (c_app c) (c_main c)) (c_ops c)))" % c))
-        print("first differing step (untracked/view trace):", core.coq_show(
-            ctx, LAST["preamble"],
-            "let c := %s in first_diff 0 (model_trace (init_main true (c_app c) (c_main c)) (mo_enable_cookie (c_main c)) "
-            "(map (cook (c_app c) (c_main c)) (c_ops c))) (c_impl_a c)" % c))
+            "let c := %s in map (fun o => (o_handles (fst o), o_accs (fst o), o_watch (fst o), o_cookies (fst o), snd o)) "
+            "(xmodel_trace (init_main true (x_app c) (x_main c)) "
+            "(mo_enable_cookie (x_main c)) (map (xcook (x_app c) (x_main c)) (x_ops c)))" % c))
+        for nm, fld in (("first trace: untracked reads, first accessor of each pair", "x_impl_a"),
+                        ("second trace: tracked reads, second accessor of each pair", "x_impl_b")):
+            print("first differing step (%s):" % nm, core.coq_show(
+                ctx, LAST["preamble"],
+                "let c := %s in xfirst_diff 0 (xmodel_trace (init_main true (x_app c) (x_main c)) (mo_enable_cookie (x_main c)) "
+                "(map (xcook (x_app c) (x_main c)) (x_ops c))) (%s c)" % (c, fld)))
     print("check code (0 ok, 2 model differs, 3 spec violated, 4 panic/unstable):", codes[0])
     return 1 if codes[0] in (3, 4) else 0
